@@ -43,7 +43,8 @@ RULE = ("valid cases: G-DAG N<=2 (every base pipeline and every single decoratio
         "size on every root axis, every reduced axis); each run-time map fault x start state {no folder, folder holding a previous COMPLETE run "
         "opened with cleanup=False} (+ fresh folder for the storage operator). rich bound (thorough, all stages but the last): additionally "
         "PipeFunc-level faults in both listing orders, the fresh-folder start for every operator, index -size-1, surplus keyword with reversed "
-        "parameters. non-trivial = the reference validity check of this module confirms the faulted case ill-formed (cases it finds well-formed are "
+        "parameters; the last thorough stage (2-function pipelines whose second function takes two arrays) uses the quick bound without the no-folder "
+        "start. non-trivial = the reference validity check of this module confirms the faulted case ill-formed (cases it finds well-formed are "
         "filtered and counted in notes, never evaluated); distinct = distinct (generator, operator, sub-kind, API, start state, exception type, "
         "raising function, feature set of the pipeline)")
 ASSUMPTIONS = ["reference validity checks in this module (output-name multiset, dependency-graph cycle over unbound edges, default table, "
@@ -61,12 +62,17 @@ STARTS = ("none", "fresh", "prior")
 # exists; incl. a duplicate inside one tuple and a self loop) are tried in the natural listing order only; the 'fresh folder' start state is
 # used for the storage operator only (the only one whose detection point depends on it); the surplus keyword of run() is tried in the natural parameter order only; the out-of-range fixed index is `size`.
 # rich bound (thorough, all other stages): both listing orders and all three start states for everything, index `-size-1` as well.
+# lean bound (last stage of the thorough tier, the 28 822 remaining 2-function pipelines): the quick bound without the no-folder start (that
+# start is covered for the same operators and code paths by all earlier stages)
 RICH = False
+LEAN = False
 PIPEFUNC_LEVEL_OPS = ("out-own-param", "ms-non-parameter", "ms-missing-output", "ms-output-disagree", "bound-in-mapspec")
 
 
 def _starts(op):
-    return STARTS if (RICH or op == "storage-unknown") else ("none", "prior")
+    if RICH or op == "storage-unknown":
+        return STARTS
+    return ("prior",) if LEAN else ("none", "prior")
 
 
 # =================================================================================================
@@ -987,8 +993,8 @@ def plan(tier, seed):
     for st in STAGES[tier]:
         stage_specs(st)
         n = NCHUNK[st]
-        rich = tier == "thorough" and st != "map-2-functions-rest"
-        us = [(st, (st, rich, c, n)) for c in range(n)]
+        mode = "quick" if tier == "quick" else ("lean" if st == "map-2-functions-rest" else "rich")
+        us = [(st, (st, mode, c, n)) for c in range(n)]
         r = seed % n
         out.extend(us[r:] + us[:r])
     return out
@@ -1036,9 +1042,9 @@ def run_spec(gen, spec, acc, sample=False):
 
 
 def run_unit(unit):
-    global RICH  # noqa: PLW0603
-    st, rich, c, n = unit
-    RICH = bool(rich)
+    global RICH, LEAN  # noqa: PLW0603
+    st, mode, c, n = unit
+    RICH, LEAN = mode == "rich", mode == "lean"
     acc = Acc()
     gen, specs = stage_specs(st)
     for k, spec in enumerate(specs):
